@@ -42,6 +42,8 @@ def check(run):
         from . import C04 as _C04   # lazy: C04 borrows from this module
         b2 = run.borrow("C04", only=r"important=>importants|tagged", why="a tagged $important rule is gated through `importants`")
         run.guard("C07.via.C04.1.routing", cfg, lambda: _C04.rule_routing(b2, F, cfg))
+        b3 = run.borrow("C04", only=r"table:", why="which lists are probed (with the enabled tags) for a query")
+        run.guard("C07.via.C04.2.precedence", cfg, lambda: _C04.rule_verdict_table(b3, F, cfg))
 
 
 def probes(F, run=None):
@@ -155,6 +157,14 @@ def rule_gate_shape(run, F, cfg):
             if not g and not g_ok:
                 # alternative spelling: explicit match on filter.tag
                 g_ok = any(".tag" in e and "arg:active_tags" in e and v == 1 for e, v in conds.items())
+            # default for untagged rules is `true`; the closure is active_tags.contains(tag), not negated
+            for e, v in g:
+                mm = re.search(r"closure\[([^\]]+)\]\(.*\), (\w+)\)$", e)
+                if mm:
+                    c = F.fns.get(mm.group(1))
+                    c_ok = c is not None and bool(re.match(r"^std::collections::HashSet::contains\((up:|\$)?active_tags, arg:t\)$",
+                                                           re.sub(r"up:active_tags", "up:active_tags", c.expr_local(0))))
+                    g_ok = g_ok and mm.group(2) == "true" and c_ok
             run.ob("C07.2.gate-shape", f"{name.split('::')[-1]}:emit#{n}", m_ok and g_ok,
                    f"{name}: path that emits a filter must pass matches()==true [{m_ok}] and the "
                    f"tag gate over (filter.tag, active_tags)==true [{g_ok}]",
@@ -250,7 +260,13 @@ def rule_set_algebra(run, F, cfg):
         for b, t in c.calls(r"HashSet::contains$"):
             e = c.expr_call(t)
             if ".tag" in e and re.search(r"up:self(\.|__)tags_enabled", e):
-                ok = True
+                # keep iff tagged AND enabled: the closure's value is false or that contains(), and the
+                # contains() is evaluated only for a rule that has a tag
+                ret = c.expr_local(0)
+                guard = dominating_conditions(c, b)
+                ok = bool(re.match(r"^φ\{false \| std::collections::HashSet::contains\(", ret)) and \
+                    any(re.search(r"Option::is_some\(arg:\w+\.tag\)$", k) and v == 1 for k, v in guard.items()) and \
+                    not any(st["k"] == "assign" and st["rv"]["k"] == "unop" for _b, _i, st in c.statements())
     run.ob("C07.3.set-algebra", "tags_with_set:filter", ok,
            "the rebuild keeps exactly the rules whose tag is in the new set "
            "(closure: tags_enabled.contains(filter.tag))", config=cfg)
